@@ -754,3 +754,98 @@ func genParBlocks(r *core.Rand) string {
 	}
 	return "C05 par " + strings.Join(subs, " // ")
 }
+
+// genLifecycle enumerates, per key, what happened to it in each layer: in
+// leveldb (flushed commit: nothing / put), in three successive cached commits
+// (nothing / put / delete each) and in the open transaction (nothing / put /
+// delete): 2*3*3*3*3 = 162 life cycles, four keys (plus one nested bucket that
+// follows the first key's cycle) per line.  Get, ForEach and a cursor walk are
+// observed after every commit, inside the open transaction, after its commit
+// or rollback, after the flush and after reopen.
+func genLifecycle(r *core.Rand, emit func(class string, line string)) {
+	const ncombo = 162
+	keys := []string{"00", "61", "6100", "ff"}
+	for base := 0; base < ncombo; base += len(keys) {
+		var ops []string
+		add := func(f string, a ...any) { ops = append(ops, fmt.Sprintf(f, a...)) }
+		digit := func(i, phase int) int { // 0 = ldb (2 values), 1..4 (3 values)
+			c := (base + i) % ncombo
+			if phase == 0 {
+				return c % 2
+			}
+			c /= 2
+			for p := 1; p < phase; p++ {
+				c /= 3
+			}
+			return c % 3
+		}
+		observe := func(tx string) {
+			for _, k := range keys {
+				add("g:%s:6c:%s", tx, k)
+			}
+			add("fe:%s:6c", tx)
+			add("cu:%s:cc:6c", tx)
+			add("F:cc")
+			for range keys {
+				add("N:cc")
+			}
+			add("L:cc")
+			add("P:cc")
+		}
+		reader := func() {
+			add("br:r")
+			observe("r")
+			add("rb:r")
+		}
+		apply := func(phase int) {
+			for i, k := range keys {
+				switch d := digit(i, phase); {
+				case phase == 0 && d == 1, phase > 0 && d == 1:
+					add("p:w:6c:%s:%02x%02x", k, phase+1, i)
+					if i == 0 {
+						add("ci:w:6c:62")
+						add("p:w:6c/62:01:%02x", phase+1)
+					}
+				case phase > 0 && d == 2:
+					if r.Bool() {
+						add("d:w:6c:%s", k)
+					} else {
+						add("cu:w:cd:6c")
+						add("S:cd:%s", k)
+						add("D:cd")
+					}
+					if i == 0 {
+						add("xb:w:6c:62")
+					}
+				}
+			}
+		}
+		add("bw:w")
+		add("cb:w:.:6c")
+		add("co:w")
+		add("bw:w")
+		apply(0)
+		add("co:w")
+		add("fl")
+		for phase := 1; phase <= 3; phase++ {
+			add("bw:w")
+			apply(phase)
+			add("co:w")
+			reader()
+		}
+		add("bw:w")
+		apply(4)
+		observe("w")
+		if r.Chance(3, 4) {
+			add("co:w")
+		} else {
+			add("rb:w")
+		}
+		reader()
+		add("fl")
+		reader()
+		add("ro")
+		add("da")
+		emit("key-lifecycle", "C05 db 1000000 100000000 "+strings.Join(ops, " "))
+	}
+}
